@@ -45,7 +45,7 @@ class MindsDBParser(Parser):
         ('right', UNOT),
         ('left', EQUALS, NEQUALS),
         ('nonassoc', LESS, LEQ, GREATER, GEQ, IN, NOT_IN, BETWEEN, IS, IS_NOT, NOT_LIKE, LIKE),
-        ('left', JSON_GET),
+        ('left', JSON_GET, JSON_GET_STR),
         ('left', PLUS, MINUS),
         ('left', STAR, DIVIDE, TYPECAST, MODULO),
         ('right', UMINUS),  # Unary minus operator, unary not
